@@ -70,7 +70,7 @@ PLAN = {
         "prop": [],
         "mc_quick": ["CfgsQ1"],
         "vacuity": [("DevFresh", "CfgsQ1", "NoZombie"), ("DevGate", "CfgsQ1", "NoZombie"), ("DevNoRemove", "CfgsQ1", "Forgotten")],
-        "scen_quick": ["h1-max1-A", "h1-max1-AA", "h1-tls-max1-AAB", "h2-max1-AA", "tun-max1-AAB", "h1-max1-pto", "socks-max1-AA", "fwd-max1-AA", "socks-guess-max1-AA"],
+        "scen_quick": ["h1-max1-A", "h1-max1-AA", "h1-tls-max1-AAB", "h2-max1-AA", "tun-max1-AAB", "h1-max1-pto", "socks-max1-AA", "fwd-max1-AA", "socks-guess-max1-AA", "h1-max1-A-nonascii-A"],
         "scen_thorough": ["h1-max1-A", "h1-max1-AA", "h1-max1-AAB", "h1-tls-max1-AAB", "h1-max1-close", "h1-max1-abandon", "h1-guess-max1", "h1-max2-ABA-keep1", "h2-max1-AA", "h2-max1-AAB", "tun-max1-AAB", "fwd-max1-AAB", "socks-max1-AAB", "h1-max1-pto", "h1-max1-pto-AB"],
         "strategies": ["base", "fault", "seq+fault", "cancel-scope", "cancel-native", "time"],
     },
@@ -81,7 +81,7 @@ PLAN = {
         "prop": [],
         "mc_quick": ["CfgsQ1"],
         "vacuity": [("DevEstab", "CfgsQ1", "StreamOwned")],
-        "scen_quick": ["h1-max1-AA", "h1-tls-max1-AAB", "h2-max1-AAB", "tun-max1-AAB", "socks-max1-AAB", "h2-max1-AA", "h1-max1-upgrade"],
+        "scen_quick": ["h1-max1-AA", "h1-tls-max1-AAB", "h2-max1-AAB", "tun-max1-AAB", "socks-max1-AAB", "h2-max1-AA", "h1-max1-upgrade", "h1-max1-A-nonascii-A"],
         "scen_thorough": ["h1-max1-A", "h1-max1-AA", "h1-max1-AAB", "h1-tls-max1-AAB", "h1-max1-close", "h1-max1-abandon", "h1-max2-ABC-keep0", "h2-max1-AAB", "h2-max1-AA", "tun-max1-AAB", "fwd-max1-AAB", "socks-max1-AAB", "h1-max1-upgrade"],
         "strategies": ["base", "fault", "cancel-scope", "cancel-native", "poolclose"],
     },
